@@ -286,6 +286,24 @@ def synthetic_multiphase(family: str, prm, n: int, p_lo: float, p_hi: float, gri
             "mu_w": 0.4 + 0.05 * x,
             "So": (1 - Sw) * (0.4 + 0.6 * below),
         }
+    elif family == "rv-onset":
+        # black oil below an onset pressure (Rv EXACTLY 0 there), vaporised oil appearing above it: a kink in
+        # Rv that falls on no row in general, next to a bubble point
+        xb = 0.25 + 0.5 * a
+        xo = 0.15 + 0.5 * b
+        below = np.minimum(x, xb) / xb
+        above = np.maximum(x - xb, 0)
+        d = {
+            "Bo": 1.05 + 0.45 * below - 0.08 * above,
+            "Bg": 0.003 + 0.03 / (1 + 40 * x),
+            "Bw": 1.04 - 0.02 * x,
+            "Rs": 20 + 1200 * c * below,
+            "Rv": 2e-4 * (0.5 + c) * np.maximum(x - xo, 0.0),
+            "mu_o": 2.0 - 1.2 * below + 0.3 * above,
+            "mu_g": 0.012 + 0.02 * x,
+            "mu_w": 0.4 + 0.05 * x,
+            "So": (1 - Sw) * (0.3 + 0.5 * below),
+        }
     elif family == "condensate":
         # gas condensate: single-phase gas at and above the dew point (So EXACTLY 0 there, the gas still
         # carrying its vaporised oil: Rv > 0), retrograde liquid below it
